@@ -49,6 +49,23 @@ Print Assumptions C08_later_call_starts_from_same_visible_state.
 
 Definition zero : vstate := fun _ => 0%Z.
 
+(* The same on the state itself (no list normalisation): the later call, started from the state
+   function the failed call left, agrees with the call started from the original state on every
+   component of the configuration `ceq` lists - every field, every saved slot, the fresh-value
+   counter, the remaining oracle and fault, the failure site and the desync flag. *)
+Theorem C08_later_call_same_configuration :
+  forall p, atomicb p = true ->
+    forall o k v0, failed (run_op p o k v0) <> None ->
+    forall p2 o2 k2, ceq (run_op p2 o2 k2 (cur (run_op p o k v0))) (run_op p2 o2 k2 v0).
+Proof. exact later_call_same_cfg. Qed.
+Print Assumptions C08_later_call_same_configuration.
+
+(* a call reads its start state pointwise only *)
+Theorem C08_call_reads_state_pointwise :
+  forall p o k v v', (forall f, v f = v' f) -> ceq (run_op p o k v) (run_op p o k v').
+Proof. exact run_op_ext. Qed.
+Print Assumptions C08_call_reads_state_pointwise.
+
 (* Histories.  A history is any list of calls (program, oracle, fault), each started from the
    visible state its predecessor left; `prune` removes exactly the calls that fail.  If the
    programs are atomic, the whole history ends in the visible state of the history from which
